@@ -289,7 +289,7 @@ impl Property for C08 {
         ]
     }
     fn enum_len(&self, g: &GenCtx) -> usize {
-        grid_len(g, 40_000, usize::MAX)
+        grid_len(g, 100_000, usize::MAX)
     }
     fn enum_case(&self, g: &GenCtx, i: usize) -> Option<Value> {
         let n = self.enum_len(g);
